@@ -182,9 +182,18 @@ func (am *assetMgr) loadRep(logger *slog.Logger, assetPath string, as *m.Adaptat
 	}
 	if !am.writeRepData {
 		ok, err := rp.loadFromJSON(logger, am.vodFS, am.repDataDir, assetPath)
-		if ok {
+		if ok && err == nil {
 			logger.Debug("Loaded representation data from JSON")
-			return &rp, err
+			return &rp, nil
+		}
+		if ok {
+			// An unreadable metadata file must not change what is served: scan the segments instead.
+			logger.Warn("Cannot use representation data file. Reading all segments instead", "err", err.Error())
+			rp = RepData{ID: rep.Id,
+				ContentType:  string(as.ContentType),
+				Codecs:       as.Codecs,
+				MpdTimescale: 1,
+			}
 		}
 	}
 	logger.Debug("Loading full representation by reading all segments")
